@@ -168,8 +168,9 @@ static void storage_pass(int sh,int n,int depth_mem,int depth_file,const std::st
 	// the whole pass, every sequence starts by removing the sids it uses and verifying that they are gone
 	std::vector<std::unique_ptr<cppcms::impl::tcp_cache_service> > nsrv; std::unique_ptr<sessions::tcp_storage> nclient; { std::vector<std::string> ips; std::vector<int> ports; for(int i=0;i<2;i++){ int port=0; for(int a=0;a<200;a++){ port=20000+((getpid()*5+i*1777+a*4099)%40000); int sck=socket(AF_INET,SOCK_STREAM,0); sockaddr_in ad; memset(&ad,0,sizeof ad); ad.sin_family=AF_INET; ad.sin_port=htons(port); ad.sin_addr.s_addr=htonl(INADDR_LOOPBACK); int r=bind(sck,(sockaddr*)&ad,sizeof ad); ::close(sck); if(r==0) break; } ports.push_back(port); ips.push_back("127.0.0.1");
 			booster::shared_ptr<sessions::session_storage_factory> sf(new sessions::session_memory_storage_factory()); nsrv.push_back(std::unique_ptr<cppcms::impl::tcp_cache_service>(new cppcms::impl::tcp_cache_service(cppcms::impl::thread_cache_factory(0),sf,1,"127.0.0.1",port))); } usleep(50000); nclient.reset(new sessions::tcp_storage(ips,ports)); }
-	for(int kind=0;kind<3;kind++) for(int prologue=0;prologue<2;prologue++){ bool files=kind==1,net=kind==2; int depth=files?depth_file:net?depth_file+1:depth_mem; std::vector<SOp> A=salphabet(files); std::vector<int> h;
-		std::function<void(int)> rec=[&](int d){ if(d>0){ vf::eval(); g_now=1000000; std::string hs; for(size_t i=0;i<h.size();i++){ if(i) hs+=" ; "; hs+=A[h[i]].name; } std::string cs=std::string(files?"files":net?"network":"memory")+" storage, start="+(prologue?"7 expired sessions":"empty")+" ["+hs+"]"; vf::announce("storage-seq "+cs);
+	// epoch: the same sequences with the clock in 2039 (beyond 2^31 seconds), one level shallower
+	for(int epoch=0;epoch<2;epoch++) for(int kind=0;kind<3;kind++) for(int prologue=0;prologue<2;prologue++){ const time_t BASE= epoch? (time_t)2200000000LL : (time_t)1000000; bool files=kind==1,net=kind==2; int depth=(files?depth_file:net?depth_file+1:depth_mem)-epoch; std::vector<SOp> A=salphabet(files); std::vector<int> h;
+		std::function<void(int)> rec=[&](int d){ if(d>0){ vf::eval(); g_now=BASE; std::string hs; for(size_t i=0;i<h.size();i++){ if(i) hs+=" ; "; hs+=A[h[i]].name; } std::string cs=std::string(files?"files":net?"network":"memory")+" storage, "+(epoch?"clock in 2039, ":"")+"start="+(prologue?"7 expired sessions":"empty")+" ["+hs+"]"; vf::announce("storage-seq "+cs);
 				booster::shared_ptr<sessions::session_storage> st; sessions::session_memory_storage_factory mf; std::unique_ptr<sessions::session_file_storage> fsobj;
 				if(net){ std::string fl; for(int q=0;q<2&&fl.empty();q++){ nclient->remove(SSID[q]); time_t t0; std::string v0; if(nclient->load(SSID[q],t0,v0)) fl="a removed session is still loadable at the start of the sequence"; } for(int i=0;i<7&&fl.empty();i++){ char sid[40]; snprintf(sid,sizeof sid,"e%031d",i); nclient->remove(sid); } if(!fl.empty()){ vf::violation("storage-seq:network:reset",fl+" ["+cs+"]","\"case\":"+vf::jstr(cs)); return; } }
 				if(files){ mkdir(dir.c_str(),0777); if(DIR *dd=opendir(dir.c_str())){ while(struct dirent *e=readdir(dd)){ if(e->d_name[0]=='.') continue; unlink((dir+"/"+e->d_name).c_str()); } closedir(dd); } fsobj.reset(new sessions::session_file_storage(dir,2,1,false)); } else if(!net) st=mf.get();
@@ -180,8 +181,8 @@ static void storage_pass(int sh,int n,int depth_mem,int depth_file,const std::st
 				for(size_t i=0;i<h.size()&&fail.empty();i++){ const SOp &o=A[h[i]]; switch(o.kind){ case 0: S.save(SSID[o.sid],g_now+o.dl,std::string(3,o.data)); M[SSID[o.sid]]=std::make_pair(std::string(3,o.data),g_now+o.dl); break; case 1: check_load(SSID[o.sid],("step "+std::to_string(i+1)).c_str()); break; case 2: S.remove(SSID[o.sid]); M.erase(SSID[o.sid]); break; case 3: g_now+=o.n; break; case 4: if(files) fsobj->gc(); break; } }
 				if(fail.empty()){ check_load(SSID[0],"audit"); if(fail.empty()) check_load(SSID[1],"audit"); if(fail.empty()&&prologue) for(int i=0;i<7&&fail.empty();i++){ char sid[40]; snprintf(sid,sizeof sid,"e%031d",i); check_load(sid,"audit"); } }
 				if(!fail.empty()){ vf::violation(std::string("storage-seq:")+(files?"files":net?"network":"memory")+":"+(fail.find("finds nothing")!=std::string::npos?"session-lost":fail.find("returns a session")!=std::string::npos?"ended-session-readable":"wrong-data"),fail+" ["+cs+"]","\"case\":"+vf::jstr(cs)); }
-				vf::guard("storage_sequences"); if(net) vf::guard("storage_sequences_network"); vf::C().traces++; vf::C().transitions+=h.size(); if(d==depth&&vf::sample_tick(tickc,30011)) vf::sample("{\"storage\":"+vf::jstr(files?"files":net?"network":"memory")+",\"sequence\":"+vf::jstr(hs)+",\"result\":\"every load agrees with the map model\"}",40); }
-			if(d==depth) return; if(vf::deadline_reached()){ vf::C().exhaustive=false; return; } for(size_t o=0;o<A.size();o++){ if(d==0&&(int)((o+kind+prologue)%n)!=sh) continue; h.push_back((int)o); rec(d+1); h.pop_back(); } };
+				vf::guard("storage_sequences"); if(net) vf::guard("storage_sequences_network"); if(epoch) vf::guard("storage_sequences_after_2038"); vf::C().traces++; vf::C().transitions+=h.size(); if(d==depth&&vf::sample_tick(tickc,30011)) vf::sample("{\"storage\":"+vf::jstr(files?"files":net?"network":"memory")+",\"sequence\":"+vf::jstr(hs)+",\"result\":\"every load agrees with the map model\"}",40); }
+			if(d==depth) return; if(vf::deadline_reached()){ vf::C().exhaustive=false; return; } for(size_t o=0;o<A.size();o++){ if(d==0&&(int)((o+kind+prologue+epoch)%n)!=sh) continue; h.push_back((int)o); rec(d+1); h.pop_back(); } };
 		rec(0); }
 	nclient.reset(); for(size_t i=0;i<nsrv.size();i++) nsrv[i]->stop(); nsrv.clear(); }
 
